@@ -519,7 +519,7 @@ func stripOAIGen(opts *FlattenOpts) (bool, error) {
 		debugLog("newRefs[%s]: isOAIGen: %t, resolved: %t, name: %s, path:%s, #parents: %d, parents: %v,  ref: %s",
 			k, r.isOAIGen, r.resolved, r.newName, r.path, len(r.parents), r.parents, r.schema.Ref.String())
 
-		if !r.isOAIGen || len(r.parents) == 0 {
+		if !r.isOAIGen || len(r.parents) == 0 || r.refersToItself() {
 			continue
 		}
 
@@ -535,6 +535,19 @@ func stripOAIGen(opts *FlattenOpts) (bool, error) {
 	opts.Spec.reload() // re-analyze
 
 	return replacedWithComplex, nil
+}
+
+// refersToItself tells whether one of the referers of this definition lies inside the definition itself.
+//
+// Such a recursive definition cannot be merged back into its parents: it has to remain a definition.
+func (r *newRef) refersToItself() bool {
+	for _, parent := range r.parents {
+		if strings.HasPrefix(parent, r.path+"/") {
+			return true
+		}
+	}
+
+	return false
 }
 
 // updateRefParents updates all parents of an updated $ref
